@@ -24,6 +24,7 @@ SPECS = {
     "quick": [spec(k, [], bound=1, faults=F, ly=1, oe=oe) for k in _q + ["watch"] for oe in ("p", "s")]
     + [spec(k, PAUSE1, bound=2, faults=("raise",), ly=1, oe=oe) for k in ("bare", "count2") for oe in ("p", "s")]
     + [spec(k, PAUSE1, bound=2, faults=("fail_late",), ly=1, oe=oe) for k in ("bare", "twomotors") for oe in ("p", "s")]  # the status fails while the engine is paused
+    + [spec(k, PAUSE1, bound=2, faults=("fail_if_stopped",), ly=1, oe=oe) for k in ("twomotors", "scan2") for oe in ("p", "s")]  # a move whose status fails because the pause stops the motor
     + [spec("latefail", [], bound=1, faults=F, a=a) for a in (0, 1)],  # a status that fails after its call has ended
     "thorough": [spec(k, [], bound=1, faults=F, ly=1, oe=oe, a=a) for k in _q + ["flyonly", "relscan2", "listscan", "tworuns"] for oe in ("p", "s") for a in (0, 1)]
     + [spec(k, [], bound=2, faults=F, ly=1, oe="s") for k in ("scan2", "bare", "count2")]
@@ -55,7 +56,7 @@ def oracle(scn, obs, ref, schedule):
     if paused:
         # fault + pause -> resume: judged only for a raising operation that happens BEFORE the pause takes effect, in a
         # resumable place (an operation re-executed by a replay belongs to the replay, not to a yield of the plan)
-        if any(ev[0] != "pause" for _p, ev in schedule["injections"]) or not (set(faults.values()) <= {"raise", "fail", "fail_late"}) or len(faults) != 1:
+        if any(ev[0] != "pause" for _p, ev in schedule["injections"]) or not (set(faults.values()) <= {"raise", "fail", "fail_late", "fail_if_stopped"}) or len(faults) != 1:
             return out
         if any(r != "yes" for _k, _i, r in engine.interruptions(obs)):
             return out
